@@ -8,7 +8,7 @@ import (
 	"verif/vkit"
 )
 
-const rule = "runs of 1-30 publishes on a fresh persistent bus, each tagged ok / unencodable (chan field, func field, NaN, an own MarshalJSON that returns text that is not JSON, and a type with interface-typed parts that is encodable or not depending on the value) / append rejected by the store / persistence timeout (the store blocks until the persistence context ends) / an append that outlasts the timeout in a store that does not watch its context (a success on the memory store, an ordinary timeout failure on SQLite) and, on SQLite, 'store closed from publish k on'; error handler set by option, by setter, or absent, in a third of the cases publishing a notice event on the same bus for every failure (re-entrant use from the error handler); 1-3 handlers per type (the first reads the store while it runs, the last may be async). Oracle: no panic; every handler received every event; the error handler was called exactly once per failed publish with the event, its reflect.Type and an error wrapping the cause, never for a successful one; the store saw exactly one Append per encodable publish; the log holds exactly the successful events in publish order with increasing offsets, and a failed event is never visible from inside its handlers. Non-trivial = a failure that is first or adjacent to another failure, followed by a success."
+const rule = "runs of 1-30 publishes on a fresh persistent bus, each tagged ok / unencodable (chan field, func field, NaN, an own MarshalJSON that returns text that is not JSON, and a type with interface-typed parts that is encodable or not depending on the value) / append rejected by the store / append written by the store, which then reports an error (lost acknowledgement: one report, one Append call, the record in the log once) / persistence timeout (the store blocks until the persistence context ends) / an append that outlasts the timeout in a store that does not watch its context (a success on the memory store, an ordinary timeout failure on SQLite) and, on SQLite, 'store closed from publish k on'; error handler set by option, by setter, or absent, in a third of the cases publishing a notice event on the same bus for every failure (re-entrant use from the error handler); 1-3 handlers per type (the first reads the store while it runs, the last may be async). Oracle: no panic; every handler received every event; the error handler was called exactly once per failed publish with the event, its reflect.Type and an error wrapping the cause, never for a successful one; the store saw exactly one Append per encodable publish; the log holds exactly the successful events in publish order with increasing offsets, and a failed event is never visible from inside its handlers. Non-trivial = a failure that is first or adjacent to another failure, followed by a success."
 
 var collMem = vkit.NewCollector("C13", "TestFailuresMemory", rule)
 var collSQL = vkit.NewCollector("C13", "TestFailuresSQLite", rule)
